@@ -629,7 +629,8 @@ def drv_pipeline(tier, rng):
                     if b['name'] == 'anchoring':
                         b['props']['applier'] = {'function': 'newCriterion', 'params': {'randomSeed': rng.randint(0, 999)}}
                         b['props']['referencePoints'] = {'function': 'ideal'}
-                groups.append([pcase(req)])
+                # a request made of one kind of criterion-adding bias only: a rejection is that bias failing to add its criterion
+                groups.append([pcase(req, failprop2='C19' if name == 'anchoring' else 'C18')])
     N = 300 if tier == 'quick' else 6000
     for _ in range(N):
         groups.append([pcase(pipeline.pipeline_case(rng))])
